@@ -2,6 +2,7 @@ package dagsync
 
 import (
 	"context"
+	"time"
 
 	"github.com/ipfs/go-cid"
 	"github.com/libp2p/go-libp2p/core/peer"
@@ -120,4 +121,46 @@ func VerifC08_ExplicitDuringAnnounced() {
 		}
 	}
 	verif_Assert(len(general)+len(scoped) >= 2, "every advertisement was reported")
+}
+
+// C08 (mechanism: one handler per publisher carries the pending slot and the
+// sync mutex): the idle-handler cleaner removes only handlers that have not
+// been used for the idle TTL. A handler that was just used for a sync must
+// survive a cleaner tick, otherwise the next announcement gets a second handler
+// and a second, concurrent sync. Timer ticks are harness-driven (model only).
+func VerifC08_IdleCleanerKeepsUsedHandler() {
+	chain := []cid.Cid{vCid(11), vCid(12)}
+	verif_SetClock(0)
+	v := newLiveSub(chain, 0)
+	v.s.idleHandlerTTL = 10 * time.Second
+	verif_Quiesce() // the background goroutines are up: the cleaner waits on its timer
+	hnd0 := v.s.getOrCreateHandler(v.peer.ID) // created/used at t=0: idle until t=10
+	verif_SetClock(20)                        // the handler has been idle for longer than the TTL...
+	got, err := v.s.SyncAdChain(context.Background(), v.peer, WithHeadAdCid(chain[1]))
+	verif_Assert(err == nil && got == chain[1], "the explicit sync succeeds")
+	verif_TickTimers() // ...but was used again just now, when the cleaner ticks
+	verif_Quiesce()
+	verif_Reach("ticked")
+	v.s.handlersMutex.Lock()
+	h1 := v.s.handlers[v.peer.ID]
+	v.s.handlersMutex.Unlock()
+	verif_Assert(h1 == hnd0, "a handler used less than the idle TTL ago survives the cleaner")
+	if h1 != hnd0 {
+		return
+	}
+	verif_Assume(v.s.Announce(context.Background(), chain[0], v.peer) == nil)
+	verif_Quiesce()
+	verif_Assert(v.latest() == chain[0] && v.sy.maxActive <= 1, "the later announcement is synced by the same handler, one sync at a time")
+	// a handler that stays idle for the TTL is removed
+	if !verif_Symbolic() {
+		return // real timers cannot be ticked from the harness
+	}
+	verif_SetClock(100)
+	verif_TickTimers()
+	verif_Quiesce()
+	v.s.handlersMutex.Lock()
+	_, still := v.s.handlers[v.peer.ID]
+	v.s.handlersMutex.Unlock()
+	verif_Assert(!still, "an idle handler is removed after the TTL")
+	verif_Assert(v.s.Close() == nil, "Close succeeds")
 }
